@@ -46,8 +46,8 @@ explicitly, so `(Gen.f).run s` and `Aiger.f s` have the same type `PM (result ×
 
 Not translated from `impl Parser` / `impl ParseSymbols` (reasons in `tools/unit_aigersections.py`): the
 `from_*` constructors, `new` (unit `aigernew_ascii`), `header` (accessor), `parse` (whole-file driver),
-`ParseSymbols::{next_symbol, comment}` (the `or_parse` chain over closures that capture the reader alias;
-`remaining_*_content`) — these stay tied by the correspondence runs.
+— these stay tied by the correspondence runs.  `ParseSymbols::{next_symbol, comment}` are translated by the unit
+`aigersymbols` and tied in `Props/TieAigerSymbols.lean`.
 -/
 import Flussab.Proof.TieAigerSections
 
